@@ -52,18 +52,23 @@ func NewCacheKeystoreWrapper(size int) (*Cache, error) {
 
 // Add value by keyID
 func (cache *Cache) Add(keyID string, keyValue []byte) {
+	// Keep a private copy: the cached slice is wiped when the entry is evicted
+	// and the caller may still be using (or have returned) the slice it passed in.
 	cache.mutex.Lock()
-	cache.lru.Add(keyID, keyValue)
+	cache.lru.Add(keyID, append([]byte(nil), keyValue...))
 	cache.mutex.Unlock()
 }
 
 // Get value by keyID
 func (cache *Cache) Get(keyID string) ([]byte, bool) {
-	cache.mutex.RLock()
-	defer cache.mutex.RUnlock()
+	// lru.Get() moves the entry to the front of the list, so it needs the exclusive lock.
+	cache.mutex.Lock()
+	defer cache.mutex.Unlock()
 	value, ok := cache.lru.Get(keyID)
 	if ok {
-		return value.([]byte), ok
+		// Return a copy: the cached slice is wiped when the entry is evicted,
+		// possibly while the caller is still using it.
+		return append([]byte(nil), value.([]byte)...), ok
 	}
 	return nil, ok
 }
